@@ -440,12 +440,15 @@ class BaseModel(Generic[MvalT_co], metaclass=ModelsMeta):
         for s in self.sentences:
             atomics.update(s.atomics)
             preds.update(s.predicates)
-        # ensure frames for each world
-        for w in self.R:
-            self.frames[w]
         # ensure R has each world
-        for w in self.frames:
+        for w in tuple(self.frames):
             self.R[w]
+        # apply the frame condition first, so that a world it adds (serial
+        # access) gets a completed frame like any other
+        self.R.enforce()
+        # ensure frames for each world
+        for w in tuple(self.R):
+            self.frames[w]
         for w, frame in self.frames.items():
             atomics.update(frame.atomics)
             opaques.update(frame.opaques)
